@@ -267,12 +267,6 @@ func doAddAliases(ctx *fasthttp.RequestCtx, indexName interface{}, aliasName int
 
 	log.Infof("doAddAliases: addalias for indexName=%v, aliasName=%v, indices=%v", indexName, aliasName, indices)
 
-	if _, ok := indexName.(string); !ok {
-		log.Errorf("doAddAliases: indexName is not a string, indexName=%v", indexName)
-		utils.SetBadMsg(ctx, "")
-		return
-	}
-
 	if _, ok := aliasName.(string); !ok {
 		log.Errorf("doAddAliases: aliasName is not a string, aliasName=%v", aliasName)
 		utils.SetBadMsg(ctx, "")
@@ -280,6 +274,11 @@ func doAddAliases(ctx *fasthttp.RequestCtx, indexName interface{}, aliasName int
 	}
 
 	if indexName != nil {
+		if _, ok := indexName.(string); !ok {
+			log.Errorf("doAddAliases: indexName is not a string, indexName=%v", indexName)
+			utils.SetBadMsg(ctx, "")
+			return
+		}
 		err := vtable.AddAliases(indexName.(string), []string{aliasName.(string)}, myid)
 		if err != nil {
 			log.Errorf("doAddAliases: failed to add alias, indexName=%v, aliasName=%v err=%v", indexName.(string), aliasName.(string), err)
@@ -290,6 +289,13 @@ func doAddAliases(ctx *fasthttp.RequestCtx, indexName interface{}, aliasName int
 
 	switch t := indices.(type) {
 	case []interface{}:
+		for _, iVal := range t {
+			if _, ok := iVal.(string); !ok {
+				log.Errorf("doAddAliases: index name in indices is not a string, indices=%v", indices)
+				utils.SetBadMsg(ctx, "")
+				return
+			}
+		}
 		for _, iVal := range t {
 			err := vtable.AddAliases(iVal.(string), []string{aliasName.(string)}, myid)
 			if err != nil {
